@@ -86,7 +86,7 @@ def main():
                             ['linear', 'linear'])
     assert ok.tolist() == [[True, True], [True, True], [False, False]]
     close(W[0, 0], [[0.375, 0.375], [0.125, 0.125], [0, 0]])
-    close(W[1, 1], [[0, 0], [0, 0], [0.75, 0]])
+    close(W[1, 1], [[0, 0], [0, 0], [0, 0.75]])      # t=2.5 on [0, 2]: last node, 1 - 0.5/2
     close(W[:2, 0].sum(axis=(1, 2)), [1, 1])
 
     # --- sampling loop and point alphabets
